@@ -9,7 +9,7 @@ fin new nx ny vx vy cn2 L0 seed | fin evolve t | fin reset 0|1 | fin setcn2 c | 
       → ok c=[cx,cy] t=T rng=P orig=P noise=P v=[vx,vy] par=[cn2,L0] npar=[cn2,L0]
 inf new nx ny dx dy vx vy cn2 L0 seed | inf evolve t | inf reset 0|1 | inf setcn2 c | inf setl0 l | inf setvel vx vy
       → ok c=[..] t=T sub=[..] rng=P orig=P hist=H v=[..] par=[cn2,L0] pars=cn2|L0;… scr=s:h:j:p,…
-        (p = index into pars: the parameters the sample was generated with; backwards evolution: err value;
+        (p = index into pars: the parameters the sample was generated with + the changes logged on the running layer; backwards evolution: err value;
          `inf evolveq t` = evolve, answer without pars/scr)
 phases sx sy [kx…] [ky…]   (phasesold …)                      → ok [S_0,…]      flat, x fastest
 extrude left|right|top|bottom W H [new…] [screen…]            → ok […]          (naturals)
@@ -44,12 +44,17 @@ def showFin (L : FinL) : String :=
   s!"ok c={showV2 L.center} t={showRat L.t} rng={L.rng.pos} orig={L.orig.pos} noise={L.noise.pos} " ++
   s!"v={showV2 L.vel} par={showPar L.par} npar={showPar L.noisePar}"
 
-def showSym (pars : List Par) (s : Sym) : String := s!"{s.start}:{s.hist}:{s.j}:{pars.idxOf s.par}"
+def showSym (pars : List (Par × List (Nat × Par))) (s : Sym) : String :=
+  s!"{s.start}:{s.hist}:{s.j}:{pars.idxOf (s.par, s.plog)}"
+
+/-- legend entry: the parameters of the sample, then the logged changes `@hist|cn2|L0` (latest first) -/
+def showParLog (p : Par × List (Nat × Par)) : String :=
+  s!"{showRat p.1.cn2}|{showRat p.1.L0}" ++ String.join (p.2.map fun e => s!"@{e.1}|{showRat e.2.cn2}|{showRat e.2.L0}")
 
 def showInf (L : InfL) : String :=
-  let pars := (L.screen.map (·.par)).eraseDups
+  let pars := (L.screen.map fun s => (s.par, s.plog)).eraseDups
   s!"ok c={showV2 L.center} t={showRat L.t} sub={showV2 L.sub} rng={L.rng.pos} orig={L.orig.pos} hist={L.hist} " ++
-  s!"v={showV2 L.vel} par={showPar L.par} pars=" ++ ";".intercalate (pars.map fun p => s!"{showRat p.cn2}|{showRat p.L0}") ++
+  s!"v={showV2 L.vel} par={showPar L.par} pars=" ++ ";".intercalate (pars.map showParLog) ++
   " scr=" ++ ",".intercalate (L.screen.map (showSym pars))
 
 /-- bookkeeping only (long histories of tiny steps: the screen is printed at the reads' operations only) -/
